@@ -108,6 +108,10 @@ func describe(f *refflv.File) string {
 	var sb strings.Builder
 	fmt.Fprintf(&sb, "video=%v audio=%v tags=[", f.HasVideo, f.HasAudio)
 	for k, t := range f.Tags {
+		if k >= 40 {
+			fmt.Fprintf(&sb, " ... %d more", len(f.Tags)-k)
+			break
+		}
 		if k > 0 {
 			sb.WriteString(" ")
 		}
@@ -190,6 +194,49 @@ func TestVerif_C09_Files(t *testing.T) {
 		big := i%bigEvery == bigEvery/4
 		f := genFile(r, i, big)
 		checkFile(m, vc, r, f, i, big)
+	})
+}
+
+// Long files: a recording of hours has tens of thousands of tags; muxer and demuxer state after 2^16 tags, timestamps
+// running through 2^24 and up to 2^32-1.
+func TestVerif_C09_LongFile(t *testing.T) {
+	m := mon.New("C09", "longfile")
+	defer m.Finish(t)
+	m.Rule("longfile: 2 (quick) / 8 (thorough) files of 70 000 tags (audio/video/script interleaved, bodies 1..300 bytes and a few of 0, 65535, 65536 bytes, " +
+		"timestamps advancing by 0..40 ms with jumps across 2^24 and to 2^32-1), through the same oracle as part files (byte identity with the independent writer, " +
+		"independent parse, library demux of both files under a segmentation, bodies re-examined at the end); distinct = as part files")
+	n := m.N(2, 8)
+	m.Require("evaluations", int64(n))
+	m.Require("tags_demuxed", int64(n*70000*2))
+	vc := detviol.New(m)
+	defer vc.Flush()
+	mon.Parallel(n, func(w, i int) {
+		r := m.Rand("longfile", i)
+		f := &refflv.File{HasVideo: true, HasAudio: i%2 == 0}
+		ts := uint32(0)
+		for k := 0; k < 70000; k++ {
+			tg := refflv.Tag{Type: byte(r.Pick(refflv.TagAudio, refflv.TagVideo, refflv.TagVideo, refflv.TagScript))}
+			switch k {
+			case 23000:
+				ts = 1<<24 - 20
+			case 46000:
+				ts = 1<<31 - 20
+			case 69000:
+				ts = 1<<32 - 20000
+			default:
+				if ts < 1<<32-50 {
+					ts += uint32(r.Intn(41))
+				}
+			}
+			tg.Timestamp = ts
+			size := r.Range(1, 300)
+			if k%9973 == 0 {
+				size = r.Pick(0, 65535, 65536)
+			}
+			tg.Body = r.Shaped(size)
+			f.Tags = append(f.Tags, tg)
+		}
+		checkFile(m, vc, r, f, 1000000+i, false)
 	})
 }
 
